@@ -800,7 +800,8 @@ def make_time_module():
     return _SimTime()
 
 
-def load_module_under_shims(path: str, name: str) -> types.ModuleType:
+def load_module_under_shims(path: str, name: str,
+                            extra: dict | None = None) -> types.ModuleType:
     """Execute a source file with `queue`, `threading` and `time` resolved to
     the simulated versions, so that whatever the file imports from them - in
     the pinned form or after somebody restructured it - is under the
@@ -811,6 +812,7 @@ def load_module_under_shims(path: str, name: str) -> types.ModuleType:
         "threading": make_threading_module(),
         "time": make_time_module(),
     }
+    shims.update(extra or {})
     saved = {k: sys.modules.get(k) for k in shims}
     try:
         for k, v in shims.items():
